@@ -55,6 +55,8 @@ pub struct FaultCtl {
   /// every successful signing event at the seam
   pub sign_log: RefCell<Vec<SignEvent>>,
   pub faults_fired: Cell<u64>,
+  /// a key store that does not set `kid` on the JWKs it generates (legal: `generate_method` documents the case)
+  pub strip_kid: Cell<bool>,
 }
 
 impl FaultCtl {
@@ -154,7 +156,18 @@ impl JwkStorage for FaultyJwk {
       self.ctl.record("generate", true, false);
       return Err(jwk_err());
     }
-    let r = self.inner.generate(key_type, alg).await;
+    let mut r = self.inner.generate(key_type, alg).await;
+    if self.ctl.strip_kid.get() {
+      if let Ok(out) = &r {
+        let mut j = serde_json::to_value(&out.jwk).expect("jwk to json");
+        if let Some(o) = j.as_object_mut() {
+          o.remove("kid");
+        }
+        if let Ok(jwk) = serde_json::from_value::<Jwk>(j) {
+          r = Ok(JwkGenOutput::new(out.key_id.clone(), jwk));
+        }
+      }
+    }
     self.ctl.maybe_yield("w.generate.post").await;
     self.ctl.record("generate", false, r.is_ok());
     r
